@@ -232,17 +232,17 @@ def run_kani(cat, dst, scratch, pkg, units, timeout, jobs, feats=""):
         kind = "compile-error" if ("error[" in out or "error:" in out) else "kani-failure"
         raise Undecided("%s in package %s (no verification result produced):\n%s" % (kind, pkg, tail))
     by = {r["harness_id"]: r for r in data.get("verification_results", {}).get("results", [])}
-    stats = {c["harness_id"]: c.get("cbmc_stats", {}) for c in data.get("cbmc", [])}
-    conf = {c["harness_id"]: c.get("configuration", {}) for c in data.get("cbmc", [])}
-    pd = {c["harness_id"]: c.get("property_details", {}) for c in data.get("property_details", [])}
+    stats = {c["harness_id"]: (c.get("cbmc_stats") or {}) for c in (data.get("cbmc") or [])}
+    conf = {c["harness_id"]: (c.get("configuration") or {}) for c in (data.get("cbmc") or [])}
+    pd = {c["harness_id"]: (c.get("property_details") or {}) for c in (data.get("property_details") or [])}
     for u in units:
         fn = full_name(cat, u)
         r = by.get(fn)
         if r is None:
             res[u["name"]] = dict(status="missing", checks=[], reason="harness %s not found / not executed" % fn)
             continue
-        checks = r.get("checks", [])
-        res[u["name"]] = dict(status=r.get("status"), duration_s=r.get("duration_ms", 0) / 1000.0, checks=checks,
+        checks = r.get("checks") or []
+        res[u["name"]] = dict(status=r.get("status"), duration_s=(r.get("duration_ms") or 0) / 1000.0, checks=checks,
                               stats=stats.get(fn, {}), solver=conf.get(fn, {}).get("solver"), props=pd.get(fn, {}))
     return res, out, wall, data.get("tools", {})
 
@@ -523,9 +523,9 @@ def check(prop, tier, only=None, keep=False):
             entry = dict(obligation=u["name"], engine=u["engine"], harness=u.get("harness"), kind=u["kind"],
                          bound=u.get("bound"), functions=u.get("functions", []), statement=u.get("desc", ""),
                          verdict=verdict, wall_s=round(r.get("duration_s", 0), 2), solver=r.get("solver"),
-                         solver_s=r.get("stats", {}).get("runtime_decision_procedure_s"),
-                         cbmc_properties=r.get("props", {}).get("total_properties"),
-                         vccs=r.get("stats", {}).get("vccs_generated"), expect=expect)
+                         solver_s=(r.get("stats") or {}).get("runtime_decision_procedure_s"),
+                         cbmc_properties=(r.get("props") or {}).get("total_properties"),
+                         vccs=(r.get("stats") or {}).get("vccs_generated"), expect=expect)
             if verdict == "violated" and expect.startswith("known:"):
                 fid = expect.split(":", 1)[1]
                 k = [x for x in known if x["id"] == fid]
